@@ -473,15 +473,19 @@ class Engine:
                                 elif isinstance(res, list):
                                     # forking summary: [(cond, value)]
                                     first = True
-                                    alts = [(c, v) for c, v in res if self.feasible(p.cond + [c])]
-                                    for c, v in alts[1:]:
+                                    # alternatives: (cond, value) or (cond, value, effect) where effect(path) mutates the forked path
+                                    alts = [a for a in res if self.feasible(p.cond + [a[0]])]
+                                    for a in alts[1:]:
                                         p2 = p.fork()
-                                        p2.cond.append(c)
+                                        p2.cond.append(a[0])
+                                        v = a[2](p2) if len(a) > 2 else a[1]
                                         p2.write(dst_pl, v)
                                         work.append((p2, ret))
                                     if alts:
-                                        p.cond.append(alts[0][0])
-                                        p.write(dst_pl, alts[0][1])
+                                        a = alts[0]
+                                        p.cond.append(a[0])
+                                        v = a[2](p) if len(a) > 2 else a[1]
+                                        p.write(dst_pl, v)
                                     else:
                                         ended = True
                                 else:
